@@ -1,7 +1,7 @@
 (* Run.v — entry point used by the extracted driver and by the in-Coq
    cross-check: one case (as written by the harness) and the implementation's
    observation in, the model's observation and the spec verdicts out. *)
-From Model Require Import Str Sexp Http Cors Template Table Curly DetectRoute Jsr311 Router Options Dispatch.
+From Model Require Import Str Sexp Http Cors Template Table Curly DetectRoute Jsr311 Router Options Dispatch Response.
 From Spec Require Import CorsSpec RouteSpec RankSpec DispatchSpec.
 
 Definition verdict (name : string) (b : bool) : sexp := Lst [A (L name); of_bool b].
@@ -468,6 +468,49 @@ Definition run_disp (c impl : sexp) : sexp :=
               verdict "concurrent" (negb (Z.eqb mode 0));
               verdict "history_longer_than_one" (Nat.ltb 1 (List.length hist)) ] ].
 
+(* ---- domain "resp" (C15) ----
+   case: (oracles script comp pretty via ops); impl: (((err fails-after) ...) StatusCode ContentLength seen accepted panicked) *)
+Fixpoint resp_trace (r : resp) (ops : list rop) : list sexp * resp :=
+  match ops with
+  | [] => ([], r)
+  | o :: rest =>
+      let '(r1, e) := resp_step r o in
+      let '(tr, r2) := resp_trace r1 rest in
+      (Lst [of_bool e; of_nat (u_fails (p_u r1))] :: tr, r2)
+  end.
+
+Definition run_resp (c impl : sexp) : sexp :=
+  let script := sx_script (sx_nth 1 c) in
+  let comp := sx_bool (sx_nth 2 c) in
+  let pretty := sx_bool (sx_nth 3 c) in
+  let ops := map sx_rop (sx_list (sx_nth 5 c)) in
+  let '(tr, r) := resp_trace (resp_init script comp pretty) ops in
+  let seen := match u_status (p_u r) with Some n => n | None => 200%Z end in
+  let accepted := if comp then p_cbytes r else u_bytes (p_u r) in
+  let m_obs := Lst [Lst tr; I (status_code r); I (content_length r); I seen; of_N accepted; I 0] in
+  let wf := wf_ops false pretty ops in
+  (* the property's clauses on the implementation's own numbers *)
+  let i_tr := sx_list (sx_nth 0 impl) in
+  let v_status := Z.eqb (sx_int (sx_nth 1 impl)) (sx_int (sx_nth 3 impl)) in
+  let v_len := Z.eqb (sx_int (sx_nth 2 impl)) (sx_int (sx_nth 4 impl)) in
+  let v_err := (fix go (prev : Z) (l : list sexp) : bool :=
+                  match l with
+                  | [] => true
+                  | x :: l' => let f := sx_int (sx_nth 1 x) in
+                               implb (Z.ltb prev f) (sx_bool (sx_nth 0 x)) && go f l'
+                  end) 0%Z i_tr in
+  let failing := negb (Nat.eqb (u_fails (p_u r)) 0) in
+  let cls := (if negb wf then "not-wf" else if failing then "writer-fails" else if comp then "encoded"
+              else match ops with [] => "empty" | _ => "plain" end)%string in
+  Lst [ m_obs;
+        Lst [ verdict "c15_status_matches" (implb wf v_status);
+              verdict "c15_length_matches" (implb wf v_len);
+              verdict "c15_error_returned" (implb (negb comp) v_err);
+              verdict "c15_no_panic" (Z.eqb (sx_int (sx_nth 5 impl)) 0) ];
+        A (L cls);
+        Lst [ verdict "wf_history" wf; verdict "writer_fails" failing; verdict "encoded" comp;
+              verdict "through_container" (Z.eqb (sx_int (sx_nth 4 c)) 1) ] ].
+
 Definition run_case (c impl : sexp) : sexp :=
   let dom := sx_str (sx_nth 0 c) in
   if str_eqb dom (L "cors") then run_cors (sx_nth 1 c) impl
@@ -477,4 +520,5 @@ Definition run_case (c impl : sexp) : sexp :=
   else if str_eqb dom (L "twin") then run_twin (sx_nth 1 c) impl
   else if str_eqb dom (L "perm") then run_perm (sx_nth 1 c) impl
   else if str_eqb dom (L "disp") then run_disp (sx_nth 1 c) impl
+  else if str_eqb dom (L "resp") then run_resp (sx_nth 1 c) impl
   else Lst [A (L "unknown-domain")].
